@@ -173,7 +173,7 @@ func (d *disconnectHandler) handleDisconnect() {
 
 	log := d.election.getLogger()
 	log.Warn("connection_disconnected",
-		append(d.election.logWithContext(d.election.ctx),
+		append(d.election.logWithContext(d.election.context()),
 			zap.Duration("grace_period", gracePeriod),
 		)...,
 	)
@@ -201,7 +201,7 @@ func (d *disconnectHandler) handleGracePeriodExpired(generation uint64) {
 		d.mu.Unlock()
 		log := d.election.getLogger()
 		log.Info("connection_reconnected_before_grace_period",
-			d.election.logWithContext(d.election.ctx)...,
+			d.election.logWithContext(d.election.context())...,
 		)
 		return
 	}
@@ -217,7 +217,7 @@ func (d *disconnectHandler) handleGracePeriodExpired(generation uint64) {
 	if d.election.isLeader.Load() {
 		log := d.election.getLogger()
 		log.Error("demoting_due_to_connection_loss",
-			append(d.election.logWithContext(d.election.ctx),
+			append(d.election.logWithContext(d.election.context()),
 				zap.Duration("disconnected_duration", disconnectedDuration),
 			)...,
 		)
@@ -230,7 +230,7 @@ func (d *disconnectHandler) handleGracePeriodExpired(generation uint64) {
 
 		if wasLeader && onDemote != nil {
 			log.Info("leader_demoted",
-				append(d.election.logWithContext(d.election.ctx),
+				append(d.election.logWithContext(d.election.context()),
 					zap.String("reason", "connection_loss"),
 				)...,
 			)
@@ -261,7 +261,7 @@ func (e *kvElection) handleReconnect() {
 
 	log := e.getLogger()
 	log.Info("connection_reconnected",
-		e.logWithContext(e.ctx)...,
+		e.logWithContext(e.context())...,
 	)
 
 	if e.cfg.Metrics != nil {
@@ -273,7 +273,7 @@ func (e *kvElection) handleReconnect() {
 	}
 
 	log.Info("verifying_leadership_after_reconnect",
-		e.logWithContext(e.ctx)...,
+		e.logWithContext(e.context())...,
 	)
 
 	e.wg.Add(1)
@@ -350,7 +350,7 @@ func (e *kvElection) handleReconnectVerificationFailed(err error) {
 	if e.isLeader.Load() {
 		log := e.getLogger()
 		log.Error("demoting_due_to_reconnect_verification_failure",
-			append(e.logWithContext(e.ctx),
+			append(e.logWithContext(e.context()),
 				zap.Error(err),
 				zap.String("error_type", classifyErrorType(err)),
 			)...,
@@ -364,7 +364,7 @@ func (e *kvElection) handleReconnectVerificationFailed(err error) {
 
 		if wasLeader && onDemote != nil {
 			log.Info("leader_demoted",
-				append(e.logWithContext(e.ctx),
+				append(e.logWithContext(e.context()),
 					zap.String("reason", "reconnect_verification_failed"),
 				)...,
 			)
